@@ -11,6 +11,7 @@ import (
 	"regexp"
 	"runtime/debug"
 	"sort"
+	"strconv"
 	"strings"
 	"sync"
 
@@ -512,6 +513,33 @@ func (x *VC) structuralObligations(fn *ssa.Function, c *Contract) {
 		}
 		if o := x.addObl("recovers", "calls recover() directly", "", "true", cond); o != nil {
 			o.Note = "recover() stops a panic only when called directly by the deferred function"
+		}
+	}
+	for _, cf := range c.ClosureFirst {
+		n, _ := strconv.Atoi(cf[0])
+		cond := "false"
+		if n >= 1 && n <= len(fn.AnonFuncs) {
+			af := fn.AnonFuncs[n-1]
+			if len(af.Blocks) > 0 {
+			scan:
+				for _, ins := range af.Blocks[0].Instrs {
+					switch ci := ins.(type) {
+					case *ssa.Call:
+						if _, isBuiltin := ci.Call.Value.(*ssa.Builtin); isBuiltin {
+							continue
+						}
+						if callee := ci.Call.StaticCallee(); callee != nil && (callee.RelString(fn.Pkg.Pkg) == cf[1] || strings.HasSuffix(callee.String(), cf[1])) {
+							cond = "true"
+						}
+						break scan
+					case *ssa.If, *ssa.Return, *ssa.Jump, *ssa.Panic, *ssa.Go:
+						break scan
+					}
+				}
+			}
+		}
+		if o := x.addObl("closure-calls-first", fmt.Sprintf("%s$%s starts with %s", fn.Name(), cf[0], cf[1]), "", "true", cond); o != nil {
+			o.Note = "the function literal must call " + cf[1] + " before anything that can fail, panic or return"
 		}
 	}
 	for _, d := range c.Defers {
